@@ -242,6 +242,9 @@ func runWorkers(spec *Spec, tier, mode string, seed int64, scratch string) (out 
 				if mode == "race" {
 					rl := filepath.Join(scratch, fmt.Sprintf("race-%s-w%d-%d", spec.ID, w, respawn))
 					cmd.Env = append(cmd.Env, "GORACE=halt_on_error=0 log_path="+rl)
+					if w%2 == 1 { // every second race worker runs with the walker's file preloading switched on (real switch)
+						cmd.Env = append(cmd.Env, "SUBSTREAMS_DISABLE_PRELOAD_EXEC_FILES=true")
+					}
 				}
 				cmd.SysProcAttr = &syscall.SysProcAttr{Setpgid: true}
 				if err := cmd.Start(); err != nil {
